@@ -4,11 +4,7 @@ From EV Require Import Res Arr MapStream MapStreamSpec MapStreamBase.
 Import ListNotations.
 Open Scope Z_scope.
 
-Definition in_range_map (n inv:Z) (m:list Z) : Prop :=
-  forall i, 0 <= i < len m -> nthZ m i <> inv -> 0 <= nthZ m i < n.
-
-Lemma valid_map_in_range n inv m : valid_map n inv m -> in_range_map n inv m.
-Proof. intros [H _]. exact H. Qed.
+(* in_range_map / valid_map_in_range: Proofs/MapStreamBase.v *)
 
 Section Helpers.
 Context {A:Type}.
